@@ -92,6 +92,8 @@ where
     let b_ref = rf::b_value(&stubs::p1_of::<CS>(), &gens[0], &gens[1..], &d, &ms);
     kani::assume(sk.0 + e_ref != Scalar::ZERO);
     kani::assume(b_ref != G1Projective::IDENTITY);
+    // e = 0 (probability 1/r) is a signature the decoder refuses by design (octets_to_signature)
+    kani::assume(e_ref != Scalar::ZERO);
     tp!("kind", "sigflow"); tp!("suite", crate::h::c08::suite_tag::<CS>()); tp!("msgs", &msgs); tp!("hdr", hdr); tp!("msgs_none", MNONE);
     let r = Signature::<BBSplus<CS>>::sign(if MNONE { None } else { Some(&msgs) }, &sk, &pk, hdr);
     o.on = false;
@@ -109,4 +111,55 @@ where
     let sig2 = Signature::<BBSplus<CS>>::from_bytes(&bytes);
     assert!(sig2.is_ok(), "C01: signature does not decode from its own 80-byte encoding");
     assert!(sig2.unwrap() == sig, "C01: signature does not survive its 80-byte encoding");
+}
+
+/// C02, bit flips: an ARBITRARY valid signature (A*(sk+e) == B) whose 80-octet encoding has one
+/// symbolic bit flipped either fails to decode or fails to verify (exact: a single flip changes only A
+/// or only e, and A != identity).
+pub fn bitflip_contract<CS: BbsCiphersuite, const L: usize, const HDR: usize, const MLEN0: usize>()
+where
+    CS::Expander: for<'a> elliptic_curve::hash2curve::ExpandMsg<'a>,
+{
+    let sk = any_sk();
+    let pk = sk.public_key();
+    let msgs = any_msgs::<L, MLEN0>();
+    let hs: [u8; 2] = kani::any();
+    let hdr = opt_shape::<HDR>(&hs);
+    program(L + 1);
+    let o = oracle();
+    let gens = stubs::ref_gens(L + 1, false);
+    let mut ms = Vec::new();
+    let mut i = 0;
+    while i < L {
+        ms.push(rf::scalar_of_state(o.ans[i]));
+        i += 1;
+    }
+    let d = rf::scalar_of_state(o.ans[L]);
+    let b_ref = rf::b_value(&stubs::p1_of::<CS>(), &gens[0], &gens[1..], &d, &ms);
+    // honest pair: e arbitrary non-zero, A = B/(sk+e)
+    let e = any_nonzero_scalar();
+    kani::assume(sk.0 + e != Scalar::ZERO);
+    kani::assume(b_ref != G1Projective::IDENTITY);
+    let a = b_ref * (sk.0 + e).invert().unwrap();
+    kani::assume(a.0 != 0);
+    let mut sb = [0u8; 80];
+    sb[0] = 0x80;
+    sb[47] = (a.0 - 1) as u8;
+    sb[78] = 1;
+    sb[79] = (e.0 - 1) as u8;
+    let k: usize = kani::any();
+    kani::assume(k < 640);
+    sb[k / 8] ^= 1u8 << (k % 8);
+    tp!("kind", "sigflow"); tp!("suite", crate::h::c08::suite_tag::<CS>()); tp!("msgs", &msgs); tp!("hdr", hdr); tp!("msgs_none", false); tp!("flip_bit", k);
+    match Signature::<BBSplus<CS>>::from_bytes(&sb) {
+        Err(_) => {
+            kani::cover!(true, "some flips are refused by the decoder");
+        }
+        Ok(s2) => {
+            let r = s2.verify(&pk, Some(&msgs), hdr);
+            kani::cover!(r.is_err(), "some flips decode and are refused by verify");
+            assert!(r.is_err(), "C02: a signature with one flipped bit still verifies");
+        }
+    }
+    o.on = false;
 }
